@@ -7,12 +7,15 @@
 //   T <enc> <xml11 0|1> <featbits> <script>    build a DOM tree through the API and round-trip it
 //   X <enc> <ignored> <featbits> <hex bytes>   parse a document and round-trip the tree
 //        -> w=<0|1|exc:..> e=<errors> b=<hex bytes> p=<ok|fatal:..|skip> q=<0|1|-> i=<0|1|-> a=<same|diff|-> [d=<why not equal>]
-//   featbits: 1 split-cdata-sections, 2 xml-declaration, 4 discard-default-content, 8 byte-order-mark, 32 entities
+//   featbits: 1 split-cdata-sections, 2 xml-declaration, 4 discard-default-content, 8 byte-order-mark,
+//             16 writeToString (UTF-16) instead of write(), 32 entities
+//        x=<expanded names of the re-parsed tree> y=<xmlns declarations per element of the re-parsed tree>
 #include "hx_common.hpp"
 #include <csetjmp>
 #include <csignal>
 #include <unistd.h>
 #include <map>
+#include <algorithm>
 #include <xercesc/framework/XMLFormatter.hpp>
 #include <xercesc/framework/MemBufFormatTarget.hpp>
 #include <xercesc/framework/MemBufInputSource.hpp>
@@ -196,6 +199,32 @@ static bool eqc(const DOMNode* a, const DOMNode* b, std::string& why) {
     return true;
 }
 
+// expanded names of every element and (non-xmlns) attribute in document order: E{uri}local A{uri}local …
+// and the namespace declarations each element carries: D prefix=uri … (attributes sorted)
+static void signature(const DOMNode* n, std::string& names, std::string& decls) {
+    if (n->getNodeType() == DOMNode::ELEMENT_NODE) {
+        const XMLCh* ln = n->getLocalName(); if (!ln) ln = n->getNodeName();
+        names += "|E{" + hx::narrow(n->getNamespaceURI()) + "}" + hx::narrow(ln);
+        decls += "|E";
+        std::vector<std::string> as, ds;
+        DOMNamedNodeMap* m = n->getAttributes();
+        for (XMLSize_t i = 0; i < m->getLength(); i++) {
+            DOMNode* a = m->item(i);
+            if (isXmlnsAttr(a)) {
+                const XMLCh* nm = a->getNodeName();
+                ds.push_back(hx::narrow(nm[5] == chColon ? nm + 6 : XMLUni::fgZeroLenString) + "=" + hx::narrow(a->getNodeValue()));
+            } else {
+                const XMLCh* al = a->getLocalName(); if (!al) al = a->getNodeName();
+                as.push_back("{" + hx::narrow(a->getNamespaceURI()) + "}" + hx::narrow(al));
+            }
+        }
+        std::sort(as.begin(), as.end()); std::sort(ds.begin(), ds.end());
+        for (auto& x : as) names += "|A" + x;
+        for (auto& x : ds) decls += "," + x;
+    }
+    for (const DOMNode* c = n->getFirstChild(); c; c = c->getNextSibling()) signature(c, names, decls);
+}
+
 static DOMImplementation* gImpl = 0;
 
 static bool serialize(DOMDocument* doc, const std::string& enc, int feat, std::string& w, std::string& errs,
@@ -216,15 +245,27 @@ static bool serialize(DOMDocument* doc, const std::string& enc, int feat, std::s
     o->setEncoding(xenc);
     o->setByteStream(&tgt);
     bool ok = false;
+    std::vector<XMLByte> strBytes;
     try {
-        ok = ser->write(doc, o);
+        if (feat & 16) {
+            // writeToString: always UTF-16, through a MemBufFormatTarget of the serializer's own
+            XMLCh* str = ser->writeToString(doc);
+            ok = str != 0;
+            if (str) {
+                const XMLSize_t n = XMLString::stringLen(str);
+                strBytes.assign((const XMLByte*)str, (const XMLByte*)str + 2 * n);
+                XMLString::release(&str);
+            }
+        } else
+            ok = ser->write(doc, o);
         w = ok ? "1" : "0";
     } catch (const DOMLSException& e) { w = "exc:DOMLSException"; }
     catch (const DOMException& e) { w = "exc:DOMException" + std::to_string((int)e.code); }
     catch (const XMLException& e) { w = std::string("exc:XMLException:") + excName(e); }
     catch (const OutOfMemoryException&) { w = "exc:OutOfMemory"; }
     catch (...) { w = "exc:FOREIGN-EXCEPTION"; }
-    out.assign(tgt.getRawBuffer(), tgt.getRawBuffer() + tgt.getLen());
+    if (feat & 16) out = strBytes;
+    else out.assign(tgt.getRawBuffer(), tgt.getRawBuffer() + tgt.getLen());
     errs = er.log.empty() ? "-" : er.log;
     XMLString::release(&xenc);
     o->release(); ser->release();
@@ -274,6 +315,12 @@ static std::string roundTrip(DOMDocument* doc, const std::string& enc, int feat)
     serialize(d2, enc, feat, w2, e2, b2);
     res += std::string(" a=") + (w2 != "1" ? "w0" : b2 == b1 ? "same" : "diff") + " k=" + std::to_string(gKindMismatch);
     if (!q) { for (auto& c : why) if (c == ' ') c = '_'; res += " d=" + why; }
+    {   // what the re-parsed tree says about namespaces, for the Spec-judged comparison with the construction recipe
+        std::string names, decls; signature(d2, names, decls);
+        for (auto& c : names) if (c == ' ') c = '_';
+        for (auto& c : decls) if (c == ' ') c = '_';
+        res += " x=" + names + " y=" + decls;
+    }
     XMLString::release(&xenc);
     delete p;
     return res;
